@@ -1,0 +1,25 @@
+//go:build verif
+
+// Package verifhook holds the yield points of the verification harness: a goroutine that
+// reaches a yield point calls YieldFn (if set), which may block it (scheduler gate) and/or
+// record the event. Yield points sit before lock acquisitions and at timer events.
+package verifhook
+
+import "sync/atomic"
+
+var yieldFn atomic.Value // func(point, id string)
+
+// SetYieldFn installs (or with nil removes) the function called at every yield point.
+func SetYieldFn(f func(point string, id string)) {
+	if f == nil {
+		f = func(string, string) {}
+	}
+	yieldFn.Store(f)
+}
+
+// Yield is called by production code at its yield points.
+func Yield(point string, id string) {
+	if f, ok := yieldFn.Load().(func(string, string)); ok && f != nil {
+		f(point, id)
+	}
+}
